@@ -23,7 +23,7 @@ RULE = (
     "Oracle: integer arithmetic tiling [k*w, min((k+1)w, L)). Non-trivial = some chromosome "
     "with L not a multiple of w and >=2 bins (binnify routes) or a near-uniform/mixed/"
     "longer-last-bin table (inference routes). Distinct by sha1 of the canonical case."
-    " Also: `cooler info -f <field>` against the stored table when user metadata has keys named like standard fields; chromsizes names containing '#'; unit-suffixed bin sizes in parse_bins (refused, or exactly the integer denoted, on chromosomes long enough to show one bp)."
+    " Also: `cooler info -f <field>` against the stored table when user metadata has keys named like standard fields; chromsizes names containing '#'; unit-suffixed bin sizes in parse_bins (refused, or exactly the integer denoted, on chromosomes long enough to show one bp); get_chromsizes / get_binsize on tables of PART of the genome that keep the full categorical dtype; `cooler ls -l` bin sizes for collections stored under /, /g and /resolutions/<n> groups whose name is not their bin size."
 )
 ASSUMPTIONS = [
     "bin tables given to the inference are valid: per chromosome contiguous from 0, strictly increasing",
@@ -104,9 +104,11 @@ def enum_binnify(ctx: Ctx):
 # (b) inference on arbitrary valid tables
 # ---------------------------------------------------------------------------
 
-def infer_cases():
-    return gen.bin_tables(max_chroms=5, max_bins=6, max_width=9, allow_space=True).map(
-        lambda bt: {"part": "infer", "bt": bt, "categorical": False})
+@st.composite
+def infer_cases(draw):
+    bt = draw(gen.bin_tables(max_chroms=5, max_bins=6, max_width=9, allow_space=True))
+    return {"part": "infer", "bt": bt, "categorical": draw(st.booleans()),
+            "subset_seed": draw(st.one_of(st.none(), st.integers(1, 30)))}
 
 
 def check_infer(case, ctx: Ctx):
@@ -126,12 +128,33 @@ def check_infer(case, ctx: Ctx):
     want = [e[-1] for e in bt["edges"]]
     check([str(x) for x in sizes.index] == list(bt["names"]) and [int(v) for v in sizes.values] == want,
           lambda: f"get_chromsizes = {dict(sizes)} want {dict(zip(bt['names'], want))}")
+    if case.get("subset_seed") is not None and len(bt["names"]) >= 2:
+        # a table of PART of the genome that keeps the full categorical dtype (what bins[bins.chrom.isin(...)] or
+        # Cooler.bins().fetch(chrom) hand over): lengths of the chromosomes present, in order, nothing else
+        nn = len(bt["names"])
+        keep = [t for t in range(nn) if (case["subset_seed"] >> t) & 1] or [nn - 1]
+        kept = [bt["names"][t] for t in keep]
+        full = gen.bins_df(bt, categorical=True)
+        sub = full[full["chrom"].isin(kept)]
+        sz = call("get_chromsizes(partial table, full categorical dtype)", cooler.util.get_chromsizes, sub)
+        want_s = [bt["edges"][t][-1] for t in keep]
+        ok = [str(x) for x in sz.index] == kept
+        try:
+            ok = ok and [int(v) for v in sz.values] == want_s
+        except (TypeError, ValueError):
+            ok = False
+        check(ok, lambda: f"get_chromsizes of a table holding only {kept} (categories {list(bt['names'])}) = {dict(sz)}, last bin ends are {dict(zip(kept, want_s))}")
+        sb = call("get_binsize(partial table)", cooler.util.get_binsize, sub)
+        sub_bt = {"names": kept, "edges": [bt["edges"][t] for t in keep]}
+        if sb is not None:
+            check(model.tiles(sub_bt, int(sb)), lambda: f"get_binsize reports {sb} for a partial table that is not a {sb}-tiling: {sub_bt['edges']}")
     kinds = set(bt.get("kinds", []))
     longer_last = any(len(e) >= 3 and (e[-1] - e[-2]) > (e[1] - e[0]) for e in bt["edges"])
     nt = bool(kinds - {"fixed"}) or longer_last
     ctx.record(case, nt, ["infer", "reported-fixed" if b is not None else "reported-variable",
                           "truly-fixed" if tb is not None else "not-fixed",
-                          "longer-last" if longer_last else "no-longer-last"])
+                          "longer-last" if longer_last else "no-longer-last",
+                          "partial-categorical" if case.get("subset_seed") is not None and len(bt["names"]) >= 2 else "whole-table"])
 
 
 def _compositions(L):
@@ -283,7 +306,7 @@ def cooler_cases(draw):
     bt = draw(gen.bin_tables(max_chroms=4, max_bins=5, max_width=8))
     # history: the same URI (root or a group) first holds a collection over ANOTHER table and is then re-created in append mode
     prior = draw(st.one_of(st.none(), gen.bin_tables(max_chroms=3, max_bins=5, max_width=8)))
-    return {"part": "cooler", "bt": bt, "prior": prior, "group": draw(st.sampled_from(["/", "/", "/g"])),
+    return {"part": "cooler", "bt": bt, "prior": prior, "group": draw(st.sampled_from(["/", "/", "/g", "/resolutions/3", "/resolutions/1000", "/resolutions/2"])),
             # user metadata whose keys happen to be names of standard fields: what is REPORTED stays what the table says
             "metadata": draw(st.sampled_from([None, None, {"bin-size": 5000, "bin-type": "variable", "nbins": 123456, "nchroms": 99},
                                               {"bin-size": None, "bin-type": "fixed", "note": "x"}]))}
@@ -309,6 +332,17 @@ def check_cooler(case, ctx: Ctx):
         clr = cooler.Cooler(uri)
         b = clr.binsize
         info = clr.info
+        # the long listing reports a bin size per collection: the true one, or <variable>
+        rc, out_txt, exc = run_cli(["ls", "-l", path])
+        check(rc == 0 and exc is None, f"cooler ls -l failed: exit {rc} {exc!r}")
+        tb_ = model.true_binsize(bt)
+        claimed = [ln.split("\t")[-1].strip() for ln in out_txt.strip().split("\n") if ln.strip()]
+        check(len(claimed) == 1, lambda: f"cooler ls -l lists {out_txt!r}")
+        if claimed[0] != "<variable>":
+            cb = int(claimed[0].replace(",", ""))
+            check(model.tiles(bt, cb), lambda: f"cooler ls -l claims bin size {cb} for a table that is not a {cb}-tiling: {bt['edges']}")
+        elif tb_ is not None:
+            check(False, f"cooler ls -l says <variable> for a uniform table of width {tb_}")
         # the command-line metadata query reports the same fields
         for fld, want_txt in (("bin-size", str(model.true_binsize(bt))), ("bin-type", "fixed" if model.true_binsize(bt) is not None else "variable"),
                               ("nbins", str(gen.n_bins(bt))), ("nchroms", str(len(bt["names"])))):
